@@ -25,13 +25,13 @@ void JitAllocatorImpl_insertBlock(struct JitAllocatorPrivateImpl *impl, struct J
 
 static inline _Bool c_alloc_state(const struct JitAllocator* self) {
   const struct JitAllocatorPrivateImpl* impl = IMPL(self);
-  const struct JitAllocatorPool* p = g_apool;
+  const struct JitAllocatorPool* p = impl->pools;
   uint32_t bg = ((const struct JitAllocator_Impl*)impl)->granularity;
   if (impl->pool_count != 1 || !(bg == 64 || bg == 128 || bg == 256)) return 0;
   if (p->granularity != bg || p->granularity_log2 != (bg == 64 ? 6 : bg == 128 ? 7 : 8)) return 0;
   if (impl->allocation_count != g_count0 || g_count0 > ((uint64_t)1 << 40) || p->empty_block_count != g_empty0) return 0;
   if (!g_has_block) return p->cursor == NULL && p->blocks._nodes[0] == NULL && p->blocks._nodes[1] == NULL;
-  const struct JitAllocatorBlock* b = g_blk;
+  const struct JitAllocatorBlock* b = p->cursor;
   if (b->_area_size > 64u * VERIF_W || b->_area_size < 2) return 0;
   if (b->__b1._list_nodes[0] != NULL || b->__b1._list_nodes[1] != NULL) return 0;       /* the only block of its pool */
   if (b->_block_size != ((uint64_t)b->_area_size << p->granularity_log2)) return 0;
@@ -40,17 +40,18 @@ static inline _Bool c_alloc_state(const struct JitAllocator* self) {
 }
 static inline int c_alloc_post(const struct JitAllocator* self, const struct JitAllocator_Span* out, uint64_t size, uint32_t ret) {
   const struct JitAllocatorPrivateImpl* impl = IMPL(self);
+  const struct JitAllocatorBlock* blk = impl->pools->cursor;   /* alloc never moves the cursor */
   uint32_t gran = ((const struct JitAllocator_Impl*)impl)->granularity;
   uint64_t asz = (size + gran - 1) & ~(uint64_t)(gran - 1);                               /* the request rounded up to the granularity */
   unsigned lg = gran == 64 ? 6 : gran == 128 ? 7 : 8;                                      /* (shifts, not divisions: the solver does not cope with a symbolic divisor) */
   uint64_t n = asz >> lg;
   _Bool bad_size = (size == 0) || size > ((uint64_t)1 << 31) - 1 || asz > ((uint64_t)1 << 31) - 1;
-  if (g_has_block && c_wf_code(g_blk) != 0) return 1;                                     /* Z0 the block is well-formed on every exit path */
+  if (g_has_block && c_wf_code(blk) != 0) return 1;                                     /* Z0 the block is well-formed on every exit path */
   if (ret != 0) {                                                                          /* Z1 errors: nothing is handed out */
     if (out->_rx != NULL || out->_rw != NULL || out->_size != 0 || out->_block != NULL) return 2;
     if (impl->allocation_count != g_count0) return 3;
-    if (g_has_block && g_w < VERIF_W && (g_blk->_used_bit_vector[g_w] != g_used0[g_w] || g_blk->_stop_bit_vector[g_w] != g_stop0[g_w])) return 4;
-    if (g_has_block && g_blk->_area_used != g_b0._area_used) return 5;
+    if (g_has_block && g_w < VERIF_W && (blk->_used_bit_vector[g_w] != g_used0[g_w] || blk->_stop_bit_vector[g_w] != g_stop0[g_w])) return 4;
+    if (g_has_block && blk->_area_used != g_b0._area_used) return 5;
     if (bad_size) return (ret == (size == 0 ? 2u /* kInvalidArgument */ : 9u /* kTooLarge */)) ? 0 : 6;
     if (ret != 1 /* kOutOfMemory: block creation (stub) failed */) return 7;
     /* Z2 completeness: with a free run of n granules in the block the request must not have failed */
@@ -63,13 +64,13 @@ static inline int c_alloc_post(const struct JitAllocator* self, const struct Jit
   /* Z3 the span: both views at the same granule offset inside the block, the rounded size, owned by the block */
   uint64_t off = __CPROVER_POINTER_OFFSET(out->_rx);
   if (!__CPROVER_same_object(out->_rx, g_rx0) || !__CPROVER_same_object(out->_rw, g_rw0) || __CPROVER_POINTER_OFFSET(out->_rw) != off) return 10;
-  if ((off & (uint64_t)(gran - 1)) != 0 || out->_size != asz || out->_block != (void*)g_blk) return 11;
+  if ((off & (uint64_t)(gran - 1)) != 0 || out->_size != asz || out->_block != (void*)blk) return 11;
   uint64_t idx = off >> lg;
   if (idx + n > g_b0._area_size) return 12;
   if (!spec_all_bits(g_used0, VERIF_W, idx, idx + n, 0)) return 13;                         /* Z4 the granules handed out were free on entry */
-  if (g_w < VERIF_W && g_blk->_used_bit_vector[g_w] != (g_used0[g_w] | spec_range_mask64(g_w, idx, n))) return 14;   /* Z5 exactly they are marked used now */
-  if (g_blk->_area_used != g_b0._area_used + n || impl->allocation_count != g_count0 + 1) return 15;
-  if (g_blk->_pool->empty_block_count != g_empty0 - ((g_b0._flags & F_EMPTY) ? 1 : 0)) return 16;   /* Z6 a retained empty block that is used again is no longer counted */
+  if (g_w < VERIF_W && blk->_used_bit_vector[g_w] != (g_used0[g_w] | spec_range_mask64(g_w, idx, n))) return 14;   /* Z5 exactly they are marked used now */
+  if (blk->_area_used != g_b0._area_used + n || impl->allocation_count != g_count0 + 1) return 15;
+  if (blk->_pool->empty_block_count != g_empty0 - ((g_b0._flags & F_EMPTY) ? 1 : 0)) return 16;   /* Z6 a retained empty block that is used again is no longer counted */
   return 0;
 }
 #define ABLK(self) (IMPL(self)->pools->cursor)
